@@ -253,7 +253,12 @@ func evalC09(c c09Case, o *Obs) error {
 				dropped = append(dropped, loadedMsg{cur, append([]byte{}, cur.Filter...)})
 				cur = nil
 			}
-			f.Unload()
+			if op.Index%2 == 1 {
+				f.Reload(nil) // the other way of unloading, the one the repository's own tests use
+				o.Class("C09:unload-by-reload-nil")
+			} else {
+				f.Unload()
+			}
 			m.loaded = false
 			inserted = nil
 			o.Class("C09:unload")
@@ -456,7 +461,7 @@ func genC09(t *rapid.T) c09Case {
 		case 14, 15, 16:
 			c.Ops = append(c.Ops, bloomOp{Op: "matchesoutpoint", Data: hash32(), Index: idx()})
 		case 17:
-			c.Ops = append(c.Ops, bloomOp{Op: "unload"})
+			c.Ops = append(c.Ops, bloomOp{Op: "unload", Index: uint32(rapid.IntRange(0, 1).Draw(t, "how"))})
 		default:
 			op := bloomOp{Op: "reload"}
 			op.Len, op.K, op.Tweak, op.Flags = genFilterParams(t, "r")
